@@ -436,7 +436,7 @@ func runEngineInProc(c Case, emit Emitter) {
 	for i, op := range c.Steps {
 		ev := Ev{"ev": "step", "case": c.ID, "i": i, "op": op}
 		res, again, saved := engNoRes(), engNoRes(), engNoRes()
-		dmod := []string{}
+		dmod, atmod, abmod := []string{}, []string{}, []string{}
 		// (the deep dumps are current: the previous step ended with a sync and nothing ran since)
 		var ret string
 		switch op.Name() {
@@ -459,7 +459,7 @@ func runEngineInProc(c Case, emit Emitter) {
 		case "Analyze":
 			// the analysis, the data it asks for, and the analysed template rendered twice with that very data object
 			var dm []string
-			ret, res, again, dm = ctx.analyze(op.Str("n"))
+			ret, res, again, dm, atmod, abmod = ctx.analyze(op.Str("n"))
 			dmod = append(dmod, dm...)
 		default:
 			pr := ctx.prep(op)
@@ -481,6 +481,7 @@ func runEngineInProc(c Case, emit Emitter) {
 		ev["ret"] = ret
 		ev["res"], ev["again"], ev["saved"] = res, again, saved
 		ev["tmod"], ev["bmod"], ev["dmod"] = tmod, bmod, engUniq(dmod)
+		ev["atmod"], ev["abmod"] = atmod, abmod
 		ev["cache"] = ctx.cacheIDs()
 		pr, pdm := ctx.probes()
 		ptm, pbm := ctx.sync()
